@@ -64,19 +64,19 @@ CLAIMED["C14"] = ("23 theorems on the router model (registry + world of Model.Pa
     "createPair guard set and effect, removePair; management endpoints, upgrade, user-enabled swaps and every multiPairSwap hop act only on registered pairs and an unregistered hop fails the call; "
     "multi-hop ledger: router delta 0 for every token, caller delta = -input + payments, each hop is exactly Pair.step on that pair alone (C03 formulas apply), any failing hop fails all, failed step leaves the world unchanged. "
     "Tied to router + pair template by differential replay (registry views, flags, balances, 12 observables per pair).", "23 C14", "Coq reachable-state invariant + characterisation theorems + correspondence")
-CLAIMED["C15"] = ("14 theorems on the farm-staking-proxy model (callee answers are inputs; interface laws L1-L7 are boolean predicates checked on every real answer and L1-L3, L6, L7 proved on Model/Farm, Model/Pair, Model/SafePrice): "
+CLAIMED["C15"] = ("19 theorems on the farm-staking-proxy model (callee answers are inputs; interface laws L1-L7 are boolean predicates checked on every real answer and ALL proved on the callee models: L1-L3 on Model/Farm, L3-L5 on Model/StakingPos, L6 on Model/Pair, L7 on Model/SafePrice): "
     "for every history the proxy holds exactly the LP-farm and staking-farm tokens its outstanding dual-yield tokens record, all fungible balances 0; partial redemption = floor of the proportional share, sum of parts never exceeds the whole; "
     "unstake output order and unbond amount; registered staking value is the staking side of the safe-price (TWAP) answer and the only price query. Tied to the real pair + farm-with-locked-rewards + farm-staking + proxy by differential replay.",
-    "14 C15", "Coq inductive invariant + characterisation theorems relative to stated callee laws + correspondence")
+    "19 C15", "Coq inductive invariant + characterisation theorems relative to stated callee laws + correspondence")
 CLAIMED["C19"] = ("24 theorems: the access table (587 rows = every exported endpoint of the 16 contracts in Gen/Endpoints.v, regenerated from the source each run, plus on-behalf variants; 11,926 cells) proved exhaustively by vm_compute + forallb_forall: allowed => caller holds the demanded role / is a configured counterparty / authorised agent; "
     "fund-moving rows disallowed when inactive or paused (pair bootstrap exception), partial-active = liquidity only; inventory covered, #[only_owner] attributes agree; for all inputs: require_any_of rule, no escalation and powerless callers over every permissions/hub history, on-behalf rule = hub view, revocation/blacklist stick, rewards to the original owner; "
     "on Model.Pair / Model.Farm for all states and arguments: inactive => no user-funds operation. Tied by executing the complete endpoint x role x state matrix on the real contracts (state restored between cells) and comparing every verdict; failing calls must not change state.",
     "24 C19", "Coq finite decision table proved exhaustively + for-all-input guard/state-machine theorems + full matrix correspondence")
-CLAIMED["C16"] = ("19 theorems on the proxy_dex model (pair, farms and energy factory are environment answers; the interface laws are boolean predicates evaluated where each answer is consumed and checked on every real answer): "
+CLAIMED["C16"] = ("52 theorems on the proxy_dex model (pair, farms and energy factory are environment answers; the interface laws are boolean predicates evaluated where each answer is consumed, checked on every real answer, and each proved on the callee model - Model/Pair, Model/FarmLocked, Model/Energy/Penalty - with closed compositions C16_closed_*): "
     "Backed invariant for every lawful history and all positions at once (LP held >= user-held wrapped LP; farm tokens per nonce >= outstanding wrapped-farm supply; locked tokens per nonce >= sum of floor shares + wrapped-farm supply); "
     "remove returns locked tokens of the recorded nonce = min(received, part), base asset only as pool surplus, burns base + locked = part; exit with/without penalty for both farming-token kinds; base asset never paid except that surplus; merge; "
     "base minted on entry = base + locked burned on exit; energy drops by exactly burned*(unlock - now) incl. expired locks; into_part = floor share, aborts on zero, parts never sum past the whole. "
-    "Tied to the real pair + two farm-with-locked-rewards + energy factory + proxy_dex by differential replay.", "19 C16",
+    "Tied to the real pair + two farm-with-locked-rewards + energy factory + proxy_dex by differential replay.", "52 C16",
     "Coq inductive invariant + characterisation theorems relative to stated callee laws + correspondence")
 CLAIMED["C11"] = ("26 theorems on the boosted-yields model (farm-boosted-yields on top of the generic weekly-rewards-splitting model; farm-level facts - emission, supply, user position, energy entry - are operation inputs read from the real farm): "
     "invariant with ghost ledger for every reachable state; per processed week the payment is exactly min(maxF*R*f/F, (R*cE*e/E + R*cF*f/F)/(cE+cF)) with floor divisions and cross-multiplied bounds against the rational formula, 0 below the minimums / with E, F or R = 0; "
